@@ -703,3 +703,92 @@ async fn d17b_footer_handle_size_is_bounded() {
 	assert!(r.is_ok(), "D17b: opening a table with a damaged footer size panicked");
 	assert!(r.unwrap().is_err(), "D17b: damaged footer accepted");
 }
+
+// D15b: restore re-issues table ids but keeps the block cache of the discarded timeline
+#[tokio::test(flavor = "multi_thread")]
+async fn d15b_restore_block_cache_stale() {
+	let d = td();
+	let ck = td();
+	let opts = mk_opts(d.path().to_path_buf(), |_| {});
+	let tree = Tree::new(Arc::clone(&opts)).unwrap();
+	put(&tree, b"a", b"1").await;
+	tree.flush().unwrap();
+	tree.create_checkpoint(ck.path()).unwrap();
+	// discarded timeline: a table with the next id, read once so that its blocks are cached
+	put(&tree, b"m-discarded", b"old-timeline").await;
+	tree.flush().unwrap();
+	assert_eq!(tree.begin().unwrap().get(b"m-discarded").unwrap().as_deref(), Some(&b"old-timeline"[..]));
+	tree.restore_from_checkpoint(ck.path()).unwrap();
+	assert_eq!(tree.begin().unwrap().get(b"m-discarded").unwrap(), None);
+	// new timeline: the next flush re-uses the table id of the discarded table
+	put(&tree, b"m-new", b"new-timeline").await;
+	tree.flush().unwrap();
+	let got_new = tree.begin().unwrap().get(b"m-new").unwrap();
+	let got_old = tree.begin().unwrap().get(b"m-discarded").unwrap();
+	assert_eq!(got_old, None, "D15b: data of the discarded timeline served from the block cache after restore");
+	assert_eq!(got_new.as_deref(), Some(&b"new-timeline"[..]), "D15b: post-restore commit unreadable (stale cached block)");
+}
+
+// D15c: restore keeps the B+tree version index of the discarded timeline
+#[tokio::test(flavor = "multi_thread")]
+async fn d15c_restore_version_index_stale() {
+	let d = td();
+	let ck = td();
+	let opts = mk_opts(d.path().to_path_buf(), |o| {
+		o.enable_versioning = true;
+		o.enable_versioned_index = true;
+		o.enable_vlog = true;
+		o.vlog_value_threshold = 0;
+	});
+	let tree = Tree::new(Arc::clone(&opts)).unwrap();
+	put(&tree, b"k", b"v1").await;
+	tree.flush().unwrap();
+	tree.create_checkpoint(ck.path()).unwrap();
+	put(&tree, b"k", b"v2-discarded").await;
+	tree.flush().unwrap();
+	tree.restore_from_checkpoint(ck.path()).unwrap();
+	// the new timeline re-uses the sequence numbers of the discarded one
+	put(&tree, b"k", b"v2-new").await;
+	tree.flush().unwrap();
+	let tx = tree.begin().unwrap();
+	let mut it = tx.history(b"k", b"l").unwrap();
+	let mut n = 0;
+	let mut ok = it.seek_first().unwrap();
+	while ok {
+		n += 1;
+		ok = it.next().unwrap();
+	}
+	assert_eq!(n, 2, "D15c: history after restore still lists versions of the discarded timeline");
+}
+
+
+// D15a: restore keeps the in-memory value-log writer / handles of the discarded timeline (block cache disabled)
+#[tokio::test(flavor = "multi_thread")]
+async fn d15a_restore_vlog_state_without_cache() {
+	let d = td();
+	let ck = td();
+	let mut o = Options {
+		path: d.path().to_path_buf(),
+		..Default::default()
+	};
+	o.enable_vlog = true;
+	o.vlog_value_threshold = 16;
+	let o = o.with_block_cache_capacity(0);
+	let opts = Arc::new(o);
+	let big = |c: u8| vec![c; 300];
+	{
+		let tree = Tree::new(Arc::clone(&opts)).unwrap();
+		put(&tree, b"k1", &big(b'1')).await;
+		tree.flush().unwrap();
+		tree.create_checkpoint(ck.path()).unwrap();
+		put(&tree, b"k2", &big(b'2')).await;
+		tree.flush().unwrap();
+		tree.restore_from_checkpoint(ck.path()).unwrap();
+		put(&tree, b"k3", &big(b'3')).await;
+		tree.flush().unwrap();
+		tree.close().await.unwrap();
+	}
+	let tree = Tree::new(Arc::clone(&opts)).unwrap();
+	let r3 = tree.begin().unwrap().get(b"k3");
+	assert_eq!(r3.ok().flatten(), Some(big(b'3')), "D15a: value written after a restore is unreadable after reopen");
+}
